@@ -26,7 +26,8 @@ Print Assumptions C16_source_shape_as_modelled.
                              nothing of the other stream is in it); uncaptured streams are None;
      r = Err(OutputLimitExceeded s) => s is captured and the child's s-output exceeds the cap;
      r = Err(InvalidUtf8 s) => s is captured and its output is invalid UTF-8, or the OTHER
-                             stream is captured and exceeds the cap (C16_imprecise_error_kind);
+                             stream is captured and exceeds the cap (second disjunct impossible
+                             with the repaired re-check: C16_error_kind_exact);
    and (reaped_spec) the child is no longer running and its status has been collected; Ok only
    after the child exited by itself and was never killed; Err Timeout only after kill() and only
    if the deadline test fired at a clock value >= timeout. *)
@@ -134,19 +135,42 @@ Theorem C16_can_always_finish :
 Proof. exact can_always_finish_lemma. Qed.
 Print Assumptions C16_can_always_finish.
 
-(* A reachable imprecision of the error KIND (not of the error/success decision): with both
-   streams over the limit, stdout's kept prefix may end inside a multi-byte character and is
-   reported as InvalidUtf8(stdout) although the child's stdout is valid UTF-8. *)
-Theorem C16_imprecise_error_kind :
+(* The error KIND.  join_capture re-reads the overflow flag after the join.  GenCapture records
+   which of two shapes the source has:
+     RecheckOwn  fail only if the flag holds the joined stream's own code (source as first read);
+     RecheckAny  fail on any recorded overflow, reported for the recorded stream
+                 (fixes/C16-utf8-misattributed.patch).
+   Everything above holds for both.  The exact InvalidUtf8 clause needs RecheckAny: *)
+Theorem C16_error_kind_exact :
+  forall c sched s,
+  join_recheck_mode = RecheckAny ->
+  cfg_ok c ->
+  w (run c sched (init c)) = WDone (RErr (EUtf8 s)) ->
+  captured c s = true /\ utf8_valid (out c s) = false.
+Proof. exact error_kind_exact_lemma. Qed.
+Print Assumptions C16_error_kind_exact.
+
+(* ... and with RecheckOwn it is refuted: both streams over the limit, stderr's reader wins the
+   compare-exchange, stdout's kept prefix ends inside a multi-byte character, the child has
+   exited: InvalidUtf8(stdout) although the child's stdout is valid UTF-8 (reproduced on the
+   implementation: finding key utf8-misattributed).  Never an Ok, but the wrong kind. *)
+Theorem C16_error_kind_refuted_with_own_code_recheck :
+  join_recheck_mode = RecheckOwn ->
   utf8_valid (out1 mis_cfg) = true /\
   run_outcome mis_cfg mis_sched = Finished (RErr (EUtf8 S1)).
 Proof. exact misattributed_utf8_reachable. Qed.
-Print Assumptions C16_imprecise_error_kind.
+Print Assumptions C16_error_kind_refuted_with_own_code_recheck.
+
+Theorem C16_error_kind_witness_repaired :
+  join_recheck_mode = RecheckAny ->
+  run_outcome mis_cfg mis_sched = Finished (RErr (EOLE S2)).
+Proof. exact misattribution_repaired. Qed.
+Print Assumptions C16_error_kind_witness_repaired.
 
 (* The hypotheses are satisfiable and every kind of outcome occurs. *)
 Definition ex_cfg (n1 n2 : nat) (tmo : Z) : cfg :=
   {| pol1 := PCapture; pol2 := PCapture; cap := 4; timeout := tmo; poll := 1; pcap := 8;
-     out1 := repeat 97 n1; out2 := repeat 98 n2; ecode := 7 |}.
+     out1 := repeat 97 n1; out2 := repeat 98 n2; ecode := Some 7 |}.
 
 Example C16_ex_ok :
   run_outcome (ex_cfg 4 3 5)
